@@ -40,9 +40,9 @@ struct GenOpts {
 // Rare scenario classes are drawn with small probabilities by the random generators; the scenario phase of every check
 // also runs a fixed number of cases of each class (special::scenario_cases) by forcing the draw through this variable.
 enum Scenario { SC_NONE = 0, SC_DEEP0, SC_DEEP1, SC_DEEP2, SC_NOISY, SC_CROWD, SC_NESTED, SC_RETRY, SC_TWIN, SC_WIDEROW, SC_WIDEROW_BIG,
-                SC_LN256, SC_LN65536, SC_C05BIG, SC_C05VERB, SC_ENCPAIR, SC_ENCCROWD, SC_MULTI, SC_SIBLING, SC_COUNT };
+                SC_LN256, SC_LN65536, SC_C05BIG, SC_C05VERB, SC_ENCPAIR, SC_ENCCROWD, SC_MULTI, SC_SIBLING, SC_MARATHON, SC_COUNT };
 static const char* const scenario_names[] = {"none", "deep_unroll_4096", "deep_unroll_8192", "deep_unroll_16384", "noisy_neighbour", "crowd", "nested_decode", "retry_after_failure",
-  "progress_then_twin", "wide_rows_256", "wide_rows_1024", "lastnull_extras_256", "lastnull_extras_65536", "big_block", "verbose_neighbour", "encoder_pair", "encoder_crowd", "multi_session", "sibling_sessions"};
+  "progress_then_twin", "wide_rows_256", "wide_rows_1024", "lastnull_extras_256", "lastnull_extras_65536", "big_block", "verbose_neighbour", "encoder_pair", "encoder_crowd", "multi_session", "sibling_sessions", "marathon_revisit"};
 static int g_force = SC_NONE;
 
 inline void seeded_shuffle(std::vector<uint32_t>& v, uint64_t seed) {
